@@ -265,7 +265,7 @@ theorem step_sound (c : Conv) (h h' : Holder α) (hw : h.WF) (he : c.apply h = .
     | sptenmat M => cases he
 
 /-- **One well-typed step is accepted** and produces the class `Conv.target` names. -/
-theorem step_ok (c : Conv) (h : Holder α) (hw : h.WF) (k' : Kind) (ht : c.target h.kind = some k')
+theorem step_ok (c : Conv) (h : Holder α) (hw : h.WF) (k' : HKind) (ht : c.target h.kind = some k')
     (hv : c.argsValid h.shape.length = true) : ∃ h', c.apply h = .ok h' ∧ h'.kind = k' := by
   cases c with
   | full =>
